@@ -12,8 +12,8 @@ RULE = ("G4: searches built from valid Sid strings of every configured type by r
         "configuration). Non-trivial = distinct search string whose R4 result is non-empty or MAY_RAISE.")
 ASSUME = ["not judged (UNSPECIFIED, counted): whitespace in the search, empty alternatives, repeated / '~' / blank user filters, several '?', "
           "'**' not forming a whole segment; when R4 says MAY_RAISE a SpilException or a (typed, query-free) list are both accepted",
-          "do_extrapolate=True is judged only for: no foreign exception, typed, query-free, duplicate-free, and containing the string of every "
-          "plain result (the statement does not define the extrapolated set)"]
+          "do_extrapolate=True is judged only for: no foreign exception, typed, query-free, duplicate-free, and containing every typed search "
+          "of the plain result (documented: 'all intermediate types are included'; the statement does not define the added set)"]
 BUDGET = {"quick": 16000, "thorough": 640000}
 NSHARDS = 16
 
@@ -115,6 +115,13 @@ def extrapolate_check(rec, model, s, unfold_search, SpilException):
     estr = {str(x) for x in ext}
     if not pstr <= estr:
         rec.violation("extrapolated_misses_plain_string", case, repr(sorted(pstr - estr)[:5]))
+    # "if do_extrapolate is True, all intermediate types are INCLUDED in the result" (documented): the typed searches of the plain
+    # result are still there, with their types
+    puri = {x.uri for x in plain}
+    euri = {x.uri for x in ext}
+    rec.count("extrapolate_superset_judged")
+    if not puri <= euri:
+        rec.violation("extrapolated_loses_typed_searches", case, repr(sorted(puri - euri)[:5]))
 
 
 def worker(args):
